@@ -1,4 +1,5 @@
 """Per-property configuration of ./check."""
+import re
 REC3 = ["parse_tls_plaintext", "parse_tls_raw_record", "parse_tls_encrypted"]
 
 PROPS = {
@@ -134,7 +135,156 @@ def _length_sweep(tier, rng):
                 out.append(Case("%s %s" % (e, (hdr + tail).hex()), "", "lengths"))
     return out
 
+PROPS["C07"] = dict(
+    families=[], corpus_entries=[], small_scope=[], thorough_mult=1,
+)
+def _defrag_histories(tier, seed, rng):
+    """operation sequences over raw records: k-way splits at every cut point (incl. empty fragments and cuts
+    inside the 4-byte handshake header), foreign-type interleaving, nocopy, reset, reuse, oversize streams"""
+    import vlib
+    from vlib import Case
+    n = 150 if tier == "quick" else 1500
+    pool = []   # (ct, ver, payload, expected-one-shot (stripped) or None, single_message)
+    for c in vlib.model_gen("record", seed, n):
+        e, a, hx = vlib.split_line(c.line)
+        if e != "parse_tls_record_with_header": continue
+        payload = bytes.fromhex(hx) if hx != "-" else b""
+        pool.append((int(a[0]), int(a[1]), payload, c.expect))
+    single = []
+    for c in vlib.model_gen("handshake", seed, n):
+        e, a, hx = vlib.split_line(c.line)
+        payload = bytes.fromhex(hx) if hx != "-" else b""
+        # expectation of the one-shot parse of this single message as a record payload: "(ok @_+0 [VALUE])"
+        m = re.match(r"\(ok @\S+ (.*)\)$", c.expect)
+        suffix_len = int(re.match(r"\(ok @\S*\+(\d+) ", c.expect).group(1)) if m else 0
+        if m and suffix_len == 0:
+            single.append((22, 0x0303, payload, "(ok @_+0 [%s])" % m.group(1)))
+        pool.append((22, 0x0303, payload, None))
+    out = []
+    def rec(kind, ct, ver, frag, ln=None):
+        return "%s,%d,%d,%d,%s" % (kind, ct, ver, (len(frag) if ln is None else ln) & 0xffff, frag.hex() or "-")
+    def add(ops, expect="", origin="history"):
+        out.append(Case("defrag " + " ".join(ops), expect, origin))
+    for (ct, ver, p, exp) in pool:
+        n_p = len(p)
+        # k = 1
+        add([rec("P", ct, ver, p)]); add([rec("N", ct, ver, p)])
+        if ct in (20, 21) or n_p == 0: continue
+        cuts = range(0, n_p + 1) if n_p <= 40 else sorted(set(list(range(0, 8)) + [rng.randrange(n_p) for _ in range(12)] + [n_p - 1, n_p]))
+        for c in cuts:      # all 2-way splits (c = 0 and c = n give an empty fragment)
+            add([rec("P", ct, ver, p[:c]), rec("P", ct, ver, p[c:])], origin="split2")
+        for _ in range(6 if tier == "quick" else 30):    # random k-way splits
+            k = rng.randrange(2, 9)
+            pts = sorted(rng.randrange(n_p + 1) for _ in range(k - 1))
+            frags = [p[a:b] for a, b in zip([0] + pts, pts + [n_p])]
+            ops = [rec("P", ct, ver, f) for f in frags]
+            r = rng.random()
+            if r < 0.25:    # foreign-type record in the middle
+                ops.insert(rng.randrange(1, len(ops) + 1), rec("P", rng.choice([20, 21, 22, 23, 24, 99]), ver, bytes([1, 2])))
+            elif r < 0.4:
+                ops.insert(rng.randrange(1, len(ops) + 1), rec("N", ct, ver, p))
+            elif r < 0.55:
+                ops.insert(rng.randrange(0, len(ops) + 1), "R")
+            elif r < 0.7:   # reuse after completion: a second payload follows
+                ct2, ver2, p2, _ = rng.choice(pool)
+                c2 = rng.randrange(len(p2) + 1)
+                tail = [rec("P", ct2, ver2, p2[:c2]), rec("P", ct2, ver2, p2[c2:])]
+                add(tail, origin="tail")
+                add(ops + tail, expect="defrag-tail:" + " ".join(tail), origin="reuse")
+                add(ops + ["R"] + tail, expect="defrag-tail:" + " ".join(tail), origin="reuse")
+                continue
+            elif r < 0.8:   # inconsistent header length on one fragment
+                j = rng.randrange(len(ops)); f = ops[j].split(",")
+                if len(f) == 5: f[3] = str(rng.choice([0, 1, 2, 3, 4, 65535])); ops[j] = ",".join(f)
+            add(ops, origin="splitk")
+    # single-message payloads: the property's own statement is the oracle (every cut, random k-way splits)
+    for (ct, ver, p, exp) in single:
+        n_p = len(p)
+        for c in (range(0, n_p) if n_p <= 60 else sorted(set(list(range(0, 8)) + [rng.randrange(n_p) for _ in range(16)] + [n_p - 1]))):
+            add([rec("P", ct, ver, p[:c]), rec("P", ct, ver, p[c:])], expect="defrag-split:" + exp, origin="split2-oracle")
+        for _ in range(4):
+            k = rng.randrange(2, 9)
+            pts = sorted(rng.randrange(n_p) for _ in range(k - 1))
+            frags = [p[a:b] for a, b in zip([0] + pts, pts + [n_p])]
+            if len(frags[-1]) == 0: continue
+            add([rec("P", ct, ver, f) for f in frags], expect="defrag-split:" + exp, origin="splitk-oracle")
+    # oversize stream: a handshake header declaring 2^24-1 bytes, fed until the 10 MiB refusal
+    big = (1 << 20) if tier == "thorough" else (1 << 18)
+    hdr = bytes([11, 0xff, 0xff, 0xff])
+    total = 10 * 1024 * 1024
+    ops, size = [rec("P", 22, 0x0303, hdr + bytes(60))], 64
+    if tier == "thorough":
+        while size + big < total - 16640:
+            ops.append(rec("P", 22, 0x0303, bytes(big))); size += big
+        # approach the limit with cap-sized records, then cross it
+        while size + 16640 < total:
+            ops.append(rec("P", 22, 0x0303, bytes(16640))); size += 16640
+        ops.append(rec("P", 22, 0x0303, bytes(total - size - 1))); size = total - 1   # exactly 10 MiB - 1
+        ops.append(rec("P", 22, 0x0303, bytes(1)))     # would reach 10 MiB: refused
+        ops.append(rec("P", 22, 0x0303, bytes(16640))) # refused
+        ops.append(rec("P", 22, 0x0303, b""))          # still below: accepted, still incomplete
+        add(ops, origin="oversize")
+    return out
+
+def _defrag_items(out):
+    """split "(defrag [..] [..])" into its per-operation items (bracket-depth aware)"""
+    items, depth, cur = [], 0, []
+    for ch in out[len("(defrag"):-1]:
+        if ch == "[":
+            depth += 1
+            if depth == 1: cur = []; continue
+        if ch == "]":
+            depth -= 1
+            if depth == 0: items.append("".join(cur)); continue
+        if depth >= 1: cur.append(ch)
+    res = []
+    for it in items:
+        body, p, b = it.rsplit(" ", 2)
+        res.append((body, p, int(b)))
+    return res
+
+def direct_oracle(pid, case, impl_out):
+    """property-level predicates on the implementation's output (independent of the model)"""
+    if pid in ("C07", "C01") and case.line.startswith("defrag "):
+        if "(panic)" in impl_out: return "defragmenter panicked"
+        import re, vlib
+        if case.expect.startswith("defrag-split:") and impl_out.startswith("(defrag"):
+            want = case.expect[len("defrag-split:"):]
+            items = _defrag_items(impl_out)
+            for body, p, b in items[:-1]:
+                if not body.startswith("(inc") or p != "1":
+                    return "split payload: every call but the last must answer Incomplete with defrag_in_progress() (got %s %s)" % (body, p)
+            body, p, b = items[-1]
+            if vlib.strip_offsets(body) != vlib.strip_offsets(want) or p != "0":
+                return "split payload: the last call must return the unsplit result %s and end defragmentation" % want
+        for m in re.finditer(r" (\d) (\d+)\]", impl_out):
+            if m.group(1) == "1" and int(m.group(2)) >= 10 * 1024 * 1024:
+                return "defragmentation buffer reached 10 MiB while in progress"
+    return None
+
+def post_oracle(pid, cases, outs):
+    """oracles that relate several cases: after reset() or a completed message the parser behaves like a
+    fresh one (results and defrag_in_progress() of the continuation equal those of the continuation alone)"""
+    fails = []
+    if pid not in ("C07",): return fails
+    by_line = {c.line: o for c, o in zip(cases, outs)}
+    for c, o in zip(cases, outs):
+        if not c.expect.startswith("defrag-tail:") or not o or not o.startswith("(defrag"): continue
+        tail = c.expect[len("defrag-tail:"):]
+        ref = by_line.get("defrag " + tail)
+        if not ref or not ref.startswith("(defrag"): continue
+        k = len(tail.split(" "))
+        items = _defrag_items(o)
+        # the continuation only counts if the parser was idle just before it
+        if len(items) < k + 1 or items[-k-1][1] != "0": continue
+        got = [(b, p) for b, p, _ in items[-k:]]
+        want = [(b, p) for b, p, _ in _defrag_items(ref)]
+        if got != want:
+            fails.append((c, o, "after a completed message / reset the parser must behave like a fresh one: continuation alone gives %s" % ref))
+    return fails
+
 def extra_cases(pid, tier, seed, rng):
+    if pid == "C07": return _defrag_histories(tier, seed, rng)
     if pid == "C02": return _length_sweep(tier, rng)
     if pid == "C12": return _cipher_cases(tier, rng)
     if pid == "C17": return _nt_cases(tier, rng)
